@@ -384,7 +384,7 @@ def main():
     code = finish(PID, tier, rep, t0,
         bounds=dict(N_max=max(u.get('N', 3) for u in us), units=len(us)),
         assumptions=['real arithmetic; masses >= 0, G > 0; no coincident particles (denominators non-zero)', 'sqrt/inv/cbrt as atoms with instantiated axioms'],
-        outside=['energy error bounded / non-drifting over many steps, machine-precision energy of IAS15 — long-run floating-point statements', 'Wisdom-Holman drift / jump / synchronisation steps (Kepler solver)', 'track_energy_offset bookkeeping of the merge', 'rounding error magnitude'],
+        outside=['energy error bounded / non-drifting over many steps, machine-precision energy of IAS15 — long-run floating-point statements', 'Wisdom-Holman drift / jump / synchronisation steps with the real Kepler solver (the TRACE / MERCURIUS units replace the sub-steps by havoc stubs; WHFast/SABA centre-of-mass bookkeeping is C09/C12)', 'track_energy_offset bookkeeping of the merge', 'rounding error magnitude'],
         domain_note='REAL')
     sys.exit(code)
 
